@@ -421,6 +421,27 @@ def bounded(K):
             n += 1
             if abs(t - (m0 + m1) / 2) > (m1 - m0) / 999:
                 bad.append({'fn': 'ook.THRESHOLD_EST midpoint', 'got': t})
+        # integer-typed arguments give what the same values as floats give
+        for mu_i in (1, 2, np.int64(3)):
+            n += 1
+            a_, b_ = float(ook.theory_BER(mu_i, 0.1, 0.1)), float(ook.theory_BER(float(mu_i), 0.1, 0.1))
+            c_, d_ = float(ppm.theory_BER(mu_i, 0.1, 0.1, 4, 'hard')), float(ppm.theory_BER(float(mu_i), 0.1, 0.1, 4, 'hard'))
+            if not (close(a_, b_, 1e-12, 1e-300) and close(c_, d_, 1e-12, 1e-300)):
+                bad.append({'fn': 'theory_BER with an integer-typed mu', 'mu': int(mu_i), 'ook int/float': [a_, b_], 'ppm int/float': [c_, d_]})
+        # array arguments: every element equals the scalar call, also when only some elements have equal variances
+        S0 = np.array([0.01, 0.01, 0.02, 0.005])
+        S1 = np.array([0.01, 0.03, 0.02, 0.02])
+        for modulation, M in (('ook', None), ('ppm', 4)):
+            n += 1
+            try:
+                va = np.asarray(U.optimum_threshold(0.0, 1.0, S0, S1, modulation, M), float)
+                for q in range(4):
+                    if S0[q] != S1[q]:
+                        vs = float(U.optimum_threshold(0.0, 1.0, float(S0[q]), float(S1[q]), modulation, M))
+                        if not close(float(va[q]), vs, 1e-9, 1e-12):
+                            bad.append({'fn': 'optimum_threshold element-wise vs scalar', 'modulation': modulation, 'index': q, 'array': float(va[q]), 'scalar': vs})
+            except Exception as e:
+                bad.append({'fn': 'optimum_threshold with array variances', 'raised': f'{type(e).__name__}: {e}'[:100]})
         return {'n': n, 'distinct': len(seen), 'bad': bad[:6], 'nbad': len(bad)}
     st, r = native(work, 1800)
     ok = st == 'ok' and r['nbad'] == 0
